@@ -28,3 +28,6 @@ package common
 //@   property C08
 //@   ensures unreserved_spelling_is_kept: !(name in reservedNames) ==> result == name
 //@   ensures reserved_spelling_is_escaped: (name in reservedNames) ==> result == name + "_"
+
+// Output and diagnostics may not depend on the iteration order of a Go map (C12): decided per `range` over a map.
+//@ map-order C12 package
